@@ -58,13 +58,13 @@ fn mk_key(i: usize) -> Key {
 fn verif_native_handle_key() {
     let name = "verif_native_handle_key";
     const NKEYS: usize = 14;
-    const MAXLEN: usize = 5;
+    let maxlen: usize = if verif_deep() { 6 } else { 5 };
     let histories: [&[&str]; 2] = [&[], &["ab é"]];
     let mut evaluated = 0u64;
     let mut submitted = std::collections::HashSet::new();
     for hist in histories.iter() {
-        let mut seq = vec![0usize; MAXLEN];
-        for len in 1..=MAXLEN {
+        let mut seq = vec![0usize; maxlen];
+        for len in 1..=maxlen {
             let total = NKEYS.pow(len as u32);
             for code in 0..total {
                 let mut c = code;
@@ -109,7 +109,7 @@ fn verif_native_handle_key() {
 #[test]
 fn verif_native_word_motion() {
     let name = "verif_native_word_motion";
-    let lines = verif_strings(&['a', ' ', '+', 'é', '🍋'], 5);
+    let lines = verif_strings(&['a', ' ', '+', 'é', '🍋'], if verif_deep() { 7 } else { 5 });
     let mut evaluated = 0u64;
     for line in &lines {
         let count = line.chars().count();
